@@ -135,7 +135,8 @@ func VH11a_pairs() {
 }
 
 var coreOps = []string{"d.get-maxrx", "d.get-reconn", "d.set-reconn", "s.set-reconn", "s.set-maxrx", "s.get-maxrx", "l.get-maxrx", "l.set-maxrx",
-	"p.get-maxrx", "p.close", "d.close", "l.close", "s.set-asynch", "s.get-reconn", "d.get-passed-up", "l.get-passed-up"}
+	"p.get-maxrx", "p.close", "d.close", "l.close", "s.set-asynch", "s.get-reconn", "d.get-passed-up", "l.get-passed-up",
+	"l2.listen", "d2.dial", "s.close"}
 
 // VH11b_core: pairs of operations on a socket, its dialer, its listener and a
 // dialed pipe from two goroutines, under every schedule with at most k
@@ -160,6 +161,13 @@ func VH11b_core() {
 		return
 	}
 	p := pipes[0]
+	// a second listener and a second dialer that have not been started yet: starting one from two goroutines at
+	// once must start it once
+	l2, err := sock.NewListener("vt://l2", nil)
+	verif.Assert(err == nil, lab+"/new-listener-2")
+	d2, err := sock.NewDialer("vt://peer2", nil)
+	verif.Assert(err == nil, lab+"/new-dialer-2")
+	listenOK, dialOK := 0, 0
 	a := verif.Choice("opA", len(coreOps))
 	b := verif.Choice("opB", len(coreOps))
 	verif.Assume(a <= b)
@@ -197,12 +205,33 @@ func VH11b_core() {
 			d.GetOption("NO-SUCH-OPTION")
 		case "l.get-passed-up":
 			l.GetOption("NO-SUCH-OPTION")
+		case "l2.listen":
+			e := l2.Listen()
+			if e == nil {
+				listenOK++
+			} else {
+				verif.Assert(e == mangos.ErrAddrInUse || e == mangos.ErrClosed, lab+"/l2.listen/result-outside-sequential-contract")
+			}
+		case "d2.dial":
+			e := d2.Dial()
+			if e == nil {
+				dialOK++
+			} else {
+				verif.Assert(e == mangos.ErrAddrInUse || e == mangos.ErrClosed, lab+"/d2.dial/result-outside-sequential-contract")
+			}
+		case "s.close":
+			sock.Close()
 		}
 	}
 	ga := verif.Go("A", func() { do(a) })
 	gb := verif.Go("B", func() { do(b) })
 	verif.Quiesce()
 	verif.Assert(ga.Done() && gb.Done(), lab+"/"+coreOps[a]+"+"+coreOps[b]+"/calls-deadlocked")
+	verif.Assert(listenOK <= 1, lab+"/listener-started-twice-by-concurrent-Listen-calls")
+	verif.Assert(dialOK <= 1, lab+"/dialer-started-twice-by-concurrent-Dial-calls")
+	if vl := vt.T.Listeners["l2"]; vl != nil {
+		verif.Assert(vl.ListenCalls <= 1, lab+"/transport-listener-started-twice")
+	}
 	verif.Reach("ran")
 	sock.Close()
 	verif.Quiesce()
